@@ -98,6 +98,7 @@ type Job struct {
 	KnownHits    map[string]int64
 	NativeRuns   int64
 	Digests      []string
+	SolverRetries, SolverRescued int64 // queries re-decided by a fresh solver process after `unknown`
 	Events       []Event // vos event trace of the (single) concrete run: environment differential
 }
 
@@ -727,6 +728,8 @@ func (j *Job) Explore(nworkers int, solverBin string, solverArgs []string, logDi
 						j.Queries[k] += s.Queries[k]
 					}
 					j.SolverTime += s.Time
+					j.SolverRetries += s.Retries
+					j.SolverRescued += s.Rescued
 					if s.Errors > 0 {
 						j.Inconclusive = append(j.Inconclusive, fmt.Sprintf("solver errors: %d", s.Errors))
 					}
